@@ -376,6 +376,29 @@ pub fn circuit_breaker_builder() -> CircuitBreakerConfigBuilder<DefaultClassifie
     CircuitBreakerConfigBuilder::default()
 }
 
+/// Returns the half-open trial slot of a call whose future is dropped before the outcome
+/// of the inner call has been recorded, so that a cancelled trial cannot keep the breaker
+/// half-open forever.
+struct TrialGuard {
+    circuit: Arc<Mutex<Circuit>>,
+    episode: Option<u64>,
+}
+
+impl Drop for TrialGuard {
+    fn drop(&mut self) {
+        if let Some(episode) = self.episode.take() {
+            // Critical sections on the circuit never span an await, so this is short
+            for _ in 0..1024 {
+                if let Ok(mut circuit) = self.circuit.try_lock() {
+                    circuit.release_trial(episode);
+                    return;
+                }
+                std::thread::yield_now();
+            }
+        }
+    }
+}
+
 /// A Tower Service that applies circuit breaker logic to an inner service.
 ///
 /// Manages the circuit state and controls calls to the inner service accordingly.
@@ -571,9 +594,15 @@ where
                 );
             }
 
-            let permitted = {
+            let (permitted, trial_episode) = {
                 let mut circuit = circuit.lock().await;
-                circuit.try_acquire(&config)
+                let permitted = circuit.try_acquire(&config);
+                let trial_episode = if permitted {
+                    circuit.trial_episode()
+                } else {
+                    None
+                };
+                (permitted, trial_episode)
             };
 
             #[cfg(feature = "tracing")]
@@ -598,11 +627,18 @@ where
                 return Err(CircuitBreakerError::OpenCircuit);
             }
 
+            let mut trial_guard = TrialGuard {
+                circuit: Arc::clone(&circuit),
+                episode: trial_episode,
+            };
+
             let start = std::time::Instant::now();
             let result = inner.call(req).await;
             let duration = start.elapsed();
 
             let mut circuit = circuit.lock().await;
+            // The outcome is recorded below; the slot is accounted for by the record
+            trial_guard.episode = None;
             if config.failure_classifier.classify(&result) {
                 circuit.record_failure(&config, duration);
             } else {
@@ -738,9 +774,15 @@ where
                 );
             }
 
-            let permitted = {
+            let (permitted, trial_episode) = {
                 let mut circuit = circuit.lock().await;
-                circuit.try_acquire(&config)
+                let permitted = circuit.try_acquire(&config);
+                let trial_episode = if permitted {
+                    circuit.trial_episode()
+                } else {
+                    None
+                };
+                (permitted, trial_episode)
             };
 
             #[cfg(feature = "tracing")]
@@ -771,11 +813,18 @@ where
                 return fallback(req).await.map_err(CircuitBreakerError::Inner);
             }
 
+            let mut trial_guard = TrialGuard {
+                circuit: Arc::clone(&circuit),
+                episode: trial_episode,
+            };
+
             let start = std::time::Instant::now();
             let result = inner.call(req).await;
             let duration = start.elapsed();
 
             let mut circuit = circuit.lock().await;
+            // The outcome is recorded below; the slot is accounted for by the record
+            trial_guard.episode = None;
             if config.failure_classifier.classify(&result) {
                 circuit.record_failure(&config, duration);
             } else {
